@@ -274,6 +274,7 @@ class Env:
         self.attr_plain = {}    # None-able attribute known to be not None here -> Coq variable of its value
         self.brk = None      # continuation of `break` inside a while loop
         self.counters = {}   # python local -> 0, while it is a loop counter initialised to the literal 0
+        self.tuple1 = set()  # python locals bound to a cvjp closure: calling them yields a 1-tuple
 
     def copy(self):
         e = Env()
@@ -281,6 +282,7 @@ class Env:
         e.lists, e.idx, e.types = set(self.lists), self.idx, dict(self.types)
         e.optnames, e.attr_plain, e.brk = set(self.optnames), dict(self.attr_plain), self.brk
         e.counters = dict(self.counters)
+        e.tuple1 = set(self.tuple1)
         return e
 
 
@@ -473,6 +475,9 @@ class Tr:
             return out
         if isinstance(e, ast.Subscript):
             v = e.value
+            if isinstance(v, ast.Call) and isinstance(v.func, ast.Name) and v.func.id in env.tuple1 \
+                    and isinstance(e.slice, ast.Constant) and e.slice.value == 0 and len(v.args) == 1 and not v.keywords:
+                return f"(hcall {env.names[v.func.id]} {X(v.args[0])})"     # AH(w)[0]: the cotangent itself
             if self.u.get("hd0") and isinstance(v, ast.Name) and isinstance(e.slice, ast.Constant) and e.slice.value == 0:
                 return f"({self.u['hd0']} {X(v)})"      # x[0] (only evaluated when x is non-empty)
             if isinstance(v, ast.Attribute) and v.attr in SHAPE_ATTRS and isinstance(e.slice, ast.Constant) \
@@ -632,6 +637,8 @@ class Tr:
                     return f"(ss_robust {X(e.args[0])})"
             self.bad(e, "isinstance")
         if isinstance(f, ast.Name):          # call of a local (operator / functional / closure)
+            if f.id in env.tuple1:
+                self.bad(e, "the result of a cvjp closure is a 1-tuple (unpack it with [0])")
             if f.id in env.names and not e.keywords:
                 if n == 1:
                     return f"(hcall {env.names[f.id]} {X(e.args[0])})"
@@ -730,6 +737,11 @@ class Tr:
             if t.id in env.none:
                 env.none[t.id] = False
             env.counters.pop(t.id, None)
+            env.tuple1.discard(t.id)
+            if isinstance(val_node, ast.Subscript) and isinstance(val_node.value, ast.Call) \
+                    and isinstance(val_node.value.func, ast.Name) and val_node.value.func.id == "cvjp" \
+                    and isinstance(val_node.slice, ast.Constant) and val_node.slice.value == 1:
+                env.tuple1.add(t.id)    # cvjp(F, p)[1]: a closure returning the 1-tuple of cotangents
             if isinstance(val_node, ast.Constant) and val_node.value == 0 and not isinstance(val_node.value, bool) \
                     and self.m.get("counters") and t.id in self.m["counters"]:
                 env.counters[t.id] = 0
